@@ -7,4 +7,6 @@ INVARIANT Inv03
 INVARIANT Inv10
 INVARIANT Inv11
 INVARIANT Inv12
+INVARIANT Inv07
+INVARIANT Inv20
 CHECK_DEADLOCK FALSE
